@@ -9,7 +9,9 @@ if ! (cd $t/repo && git apply --whitespace=nowarn $patch 2>/dev/null || patch -p
 rc=0
 for p in "$@"; do
   out=$(/verif/bin/sidecheck -property $p -dir $t/repo -verif $t/verif 2>&1)
-  if echo "$out" | grep -q '^VIOLATION'; then
+  if ! echo "$out" | grep -q ' tier='; then
+    echo "== $p: CHECKER ERROR $(echo "$out" | head -2 | tr '\n' ' ' | cut -c1-160)"
+  elif echo "$out" | grep -q '^VIOLATION'; then
     echo "== $p: DETECTED $(echo "$out" | grep -E '^(VIOLATED|UNDECIDED)' | awk '{print $2}' | sort -u | head -6 | tr '\n' ' ')"
     [ -n "$VERBOSE" ] && echo "$out" | grep -E '^\s+found:' | head -4 | cut -c1-400
   else
